@@ -7,6 +7,7 @@ import (
 
 	"github.com/elementsproject/peerswap/swap"
 
+	"verifharness/sim"
 	"verifharness/stats"
 )
 
@@ -14,6 +15,7 @@ func TestMain(m *testing.M) {
 	// harness-owned timing: payment retry tick 200µs, budget 40ms; no back-off sleeps
 	swap.VerifSetPayTiming(200*time.Microsecond, 40*time.Millisecond)
 	swap.VerifSetNoBackoff(true)
+	stats.Starved = sim.Starved
 	code := m.Run()
 	stats.Flush()
 	os.Exit(code)
